@@ -17,6 +17,7 @@ Obligation families
   C16.hastings[...]                    V  `_step` returns K(p0) − K(p1), K(p)=½pᵀM⁻¹p; accept exponent = −ΔH
   C16.hastings.modular[...]            U  the same with the integrator replaced by its contract (any trajectory)
   C16.hastings.fail[...]               V  every failure point of a trial restores the saved tensors; 10 failures → ±inf → rejected
+  C16.hastings.mcmc[...]               V  one iteration of the real MCMC.run: accepted ⇔ u < min(1, exp(−ΔH)); 10 failures rejected
   C16.hastings.kinetic[...]            V  Hamiltonian.kinetic_energy / Hamiltonian._call ≡ ½pᵀM⁻¹p − logp
   C16.energy.order[...]                V  (partial) Taylor coefficients 0,1,2 in ε of the energy error vanish at fixed step count
   C16.vacuity.*                        must-fail twins (patched COPIES of the integrator source / wrong specs)
@@ -27,7 +28,6 @@ from __future__ import annotations
 import contextlib
 import inspect
 import io
-import itertools
 import sys
 import textwrap
 
@@ -53,6 +53,8 @@ FUNCS = [
     "torchtree.inference.hmc.hamiltonian:Hamiltonian._call",
     "torchtree.inference.mcmc.operator:MCMCOperator.step",
     "torchtree.inference.mcmc.operator:MCMCOperator.reject",
+    "torchtree.inference.mcmc.operator:MCMCOperator.accept",
+    "torchtree.inference.mcmc.mcmc:MCMC.run",
     "torchtree.core.model:CallableModel.__call__",
     "torchtree.core.model:CallableModel.handle_parameter_changed",
     "torchtree.core.parameter:Parameter.tensor",
@@ -83,13 +85,17 @@ META = {
         "the joint re-evaluated as MCMC.run does, Δlogp + hastings ≡ −(H₁−H₀); the draw is N(0,M) with the same M; every "
         "failure point of a trial (NaN potential at each model call, NaN gradient at each backward) restores the saved "
         "tensors before the next trial, ten failures return ±inf which MCMC.run rejects (`torch.isinf` branch) and reject() "
-        "restores. NOT DECIDED: the clause 'the energy error shrinks quadratically with the step size' is an asymptotic "
+        "restores; one iteration of the real MCMC.run (torch.rand stubbed by a symbolic u) accepts iff u < min(1, exp(−(H₁−H₀))) "
+        "with H written from the definition, and leaves the chain at the trajectory end / the saved state. NOT DECIDED: the clause 'the energy error shrinks quadratically with the step size' is an asymptotic "
         "statement; only its local form is checked (C16.energy.order: the Taylor coefficients of order 0,1,2 in ε of "
-        "H(Φ_ε(q,p))−H(q,p) vanish identically at fixed step count ≤3, d≤2, for a C³ target with ∇logp the gradient of logp) — the "
+        "H(Φ_ε(q,p))−H(q,p) vanish identically at fixed step count ≤3, d≤3, modulo ∂_k logp = g_k and ∂_k g_i = ∂_i g_k, i.e. for a "
+        "C³ target whose gradient the oracle returns; this gives E = O(ε³) per fixed step count) — the "
         "fixed-trajectory-length O(ε²) bound needs a global error analysis and is not claimed.",
     "bound": "reverse/volume.trace: d=1..8 × steps=1..30 × {diagonal,dense} (property bound, exhaustive in thorough; quick: all d, "
              "steps 1..5 and 30); cut obligations: every step count, d=1..8; volume.det: d≤2, steps≤2; hastings: real integrator "
-             "d≤3, steps≤3; modular d≤8 diagonal / d≤4 dense; failure points: every model call / backward of a trial, d=2, steps≤2",
+             "d≤3, steps≤3 (dense M inverted symbolically by the real torch.inverse call, d≤3); modular (any trajectory) d=1..8 both ranks, "
+             "dense d≥4 with torch.inverse replaced by its contract; failure points: every model call / backward of a trial, d=2, steps≤2; "
+             "MCMC.run iteration: d≤3, steps≤2. U obligations are unbounded in the step count and enumerate d=1..8 (the property's bound)",
     "trusted_base": [
         "real arithmetic (IEEE rounding not modelled: 'up to round-off' is read as exact identity over the reals)",
         "TARGET/AUTOGRAD STAND-IN (assumed contract): the target is a real torchtree CallableModel subclass `_Target` whose "
@@ -108,6 +114,13 @@ META = {
         "observation only: `sys.settrace` line trace reading the locals `params`/`momentum` of the real integrator frame; a "
         "LeapfrogIntegrator subclass whose __call__ is `super().__call__` plus logging of arguments and result",
         "failure injection: `_Target._call` returns a real NaN tensor at a chosen call / its backward writes NaN gradients",
+        "`divergence_threshold` = +inf (the JSON option 'inf'; symbolic stand-in `_InfST` for which `x > thr` is False) switches the "
+        "print-only divergence diagnostic off; two obligations keep the default 1000 and prove both sides of that fork",
+        "`torch.inverse` in the namespace of torchtree.inference.hmc.operator replaced by its contract (returns a fresh symmetric W "
+        "taken as M⁻¹; called on M is a claim) ONLY in C16.hastings.modular[d≥4,dense]; elsewhere the symbolic Gauss-Jordan inverse is "
+        "compared with an independent cofactor inverse",
+        "`torch.rand` in the namespace of torchtree.inference.mcmc.mcmc replaced by a symbolic u∈(0,1) (C16.hastings.mcmc only); "
+        "SIGINT handler installed by SignalHandler is restored afterwards",
         "vt.loopcut: prefix / loop body / suffix of LeapfrogIntegrator.__call__ compiled verbatim from the current source in the "
         "module globals; the dropped header must read `for _ in range(self.steps)` (checked) and is given Python's meaning",
         "classical lemmas (assumed, not mechanised): (1) if R∘f_i∘R = f_i⁻¹ and f_i = f_{n+1−i} then R∘(f_1∘…∘f_n)∘R = (f_1∘…∘f_n)⁻¹ "
@@ -120,7 +133,8 @@ META = {
         "machine arithmetic treated as mathematical (reals); identities are identities of rational functions, valid wherever the "
         "pivots of M are non-zero, in particular for every SPD M; the sampling boxes (diagonally dominant M) only drive the numeric cross-check",
         "the gradient oracle is a function of the position only (differentiable target, no hidden state)",
-        "C15.loop supplies the accept rule `u < exp(min(0, Δlogp + hastings))` of MCMC.run; here only the exponent is identified with −ΔH",
+        "the accept rule of MCMC.run is exercised for one iteration with a single operator (C16.hastings.mcmc); the general loop "
+        "invariant of MCMC.run belongs to C15.loop",
         "energy-error clause not decided (see explanation)",
     ],
 }
@@ -1146,6 +1160,82 @@ def scn_hastings(d, sizes, rank, steps, plan, integ_kind="real", spec="inverse",
     return scn
 
 
+def scn_mcmc(d, sizes, rank, steps, plan):
+    """one iteration of the REAL MCMC.run with the HMC operator as the only operator; `torch.rand` in the namespace of
+    torchtree.inference.mcmc.mcmc returns a symbolic u∈(0,1).  Claims: accepted ⇔ u < min(1, exp(−(H1−H0))) with
+    H = −logp + ½pᵀM⁻¹p written from the definition; the chain state afterwards is the trajectory end (accepted) or
+    the saved state (rejected); ten failed trials ⇒ rejected."""
+    plan = [None if f is None else list(f) for f in plan]
+    n_trials = len(plan)
+    all_fail = plan[-1] is not None
+
+    def scn(mk):
+        import signal
+        tt = _tt()
+        from torchtree.inference.mcmc import mcmc as mcmc_mod
+        env = _Env(mk, d, sizes, rank, "ufn", "real", plan=plan, mass=True)
+        momenta = [mk.real("p%d" % t, (d,), -2.0, 2.0) for t in range(n_trials)]
+        u = mk.real("u", (1,), 0.0, 1.0)
+        record = []
+        real_cls = tt["int_mod"].LeapfrogIntegrator
+
+        class _Rec(real_cls):
+            def __call__(self, model, parameters, momentum, inverse_mass_matrix):
+                r = super().__call__(model, parameters, momentum, inverse_mass_matrix)
+                record.append((_copy(momentum), _copy(r), env.position(parameters)))
+                return r
+        integ = _Rec("leapfrog", steps, env.eps)
+        mass = tt["Parameter"]("mass", env.M)
+        draws = _Draws(env, momenta)
+        thr = _InfST() if mk.symbolic else float("inf")
+        sink = io.StringIO()
+        old_sig = signal.getsignal(signal.SIGINT)
+        try:
+            with _patched(tt["ham_mod"], Normal=draws.make("normal"), MultivariateNormal=draws.make("mvn")), \
+                    _patched(mcmc_mod, torch=_TorchProxy(rand=lambda *a, **k: u)), contextlib.redirect_stdout(sink):
+                op = tt["op_mod"].HMCOperator("hmc", env.model, env.params, integ, mass, 1.0, 0.8, [],
+                                              divergence_threshold=thr, disable_adaptation=True)
+                with torch.no_grad():
+                    lj0 = el(env.model())
+                chain = mcmc_mod.MCMC("mcmc", env.model, [op], 1, loggers=(), checkpoint=None, every=0)
+                chain.run()
+                q_end = env.position()
+        finally:
+            signal.signal(signal.SIGINT, old_sig)
+        q0 = _vec(env.q)
+        accepted = op._accept == 1
+        cl = [("true", "exactly_one_decision", op._accept + op._reject == 1, (op._accept, op._reject)),
+              ("true", "number_of_momentum_draws", len(draws.log) == n_trials, len(draws.log)),
+              ("true", "epoch_advanced", chain._epoch == 2)]
+        if all_fail:
+            cl += [("true", "ten_failures_are_rejected", not accepted),
+                   ("eq", "state_is_saved_state", q_end, q0)]
+            return cl
+        if rank == "diag":
+            Winv = [1 / x for x in _vec(env.M)]
+        else:
+            Winv = _cofactor_inverse(_mat(env.M))
+        p_in, p1, q1 = record[-1]
+        # H written from the definition; logp at the trajectory end is the oracle's value at q1
+        q1v = _vec(q1)
+        lj1 = nf.ufn("logp", *q1v) if mk.symbolic else _logp_py(*q1v)
+        H0 = -lj0 + _kinetic_spec(momenta[n_trials - 1], Winv)
+        H1 = -lj1 + _kinetic_spec(p1, Winv)
+        x = -(H1 - H0)
+        uu = el(u, (0,))
+        from vt.scenario import sexp
+        neg = bool(x < 0)
+        bound = sexp(x) if neg else 1.0
+        if accepted:
+            cl += [("gt0", "accepted_implies_u_below_min1_exp_minus_dH", bound - uu),
+                   ("eq", "accepted_state_is_trajectory_end", q_end, q1)]
+        else:
+            cl += [("ge0", "rejected_implies_u_not_below_min1_exp_minus_dH", uu - bound),
+                   ("eq", "rejected_state_is_saved_state", q_end, q0)]
+        return cl
+    return scn
+
+
 def scn_kinetic(d, rank, via):
     """Hamiltonian.kinetic_energy(p, M⁻¹) and Hamiltonian._call(momentum=, mass_matrix= | inverse_mass_matrix=)"""
     def scn(mk):
@@ -1260,7 +1350,8 @@ def scn_energy_order(d, sizes, steps, rank, variant="real", relations=True):
         for order in range(3):
             at0 = _rename_atoms(nf.subst(_rename_atoms(cur, rule), zero), rule)
             out.append(("eq", "taylor_coefficient_%d_vanishes" % order, at0, 0.0))
-            cur = nf.diff(cur, "eps")
+            if order < 2:
+                cur = nf.diff(cur, "eps")
         ok = all(nf.equal(c[2], 0) for c in out)
         info = "; ".join("%s: %s" % (c[1], nf.show(nf.as_rf(c[2]), 4)) for c in out if not nf.equal(c[2], 0))
         return [("true", "taylor_coefficients_0_1_2_vanish", ok, info)]
@@ -1295,7 +1386,7 @@ def obligations(tier, seed):
     thorough = tier == "thorough"
 
     def add(name, tag, factory, args, clause, d, **kw):
-        if factory in ("scn_hastings", "scn_kinetic"):
+        if factory in ("scn_hastings", "scn_kinetic", "scn_mcmc"):
             kw.setdefault("timeout", 240)
         obs.append(scenario_ob("C16", name, tag, factory, args, clause=clause, funcs=FUNCS, seed=seed, fns=_fns(d), **kw))
 
@@ -1362,13 +1453,26 @@ def obligations(tier, seed):
             for f in (["U", steps + 2], ["G", 1], ["U", 0]):
                 add("C16.hastings.fail[10x%s%d,steps=%d,%s]" % (f[0], f[1], steps, rank), "V", "scn_hastings",
                     (2, (1, 1), rank, steps, [f] * 10), "ten failures: infinite Hastings term, rejected, state restored", 2)
-    for d in (1, 2, 3) + ((4,) if thorough else ()):
+    # one iteration of the real MCMC.run (accept rule on the full Hamiltonian difference; ten failures rejected)
+    for d in ((1, 2, 3) if thorough else (1, 2)):
         for rank in ranks:
+            for steps in ((1, 2) if thorough else (1,)):
+                add("C16.hastings.mcmc[d=%d,steps=%d,%s]" % (d, steps, rank), "V", "scn_mcmc", (d, _split(d), rank, steps, [None]),
+                    "acceptance decided on the full Hamiltonian difference (real MCMC.run)", d, expect_paths_min=3)
+    for rank in ranks:
+        add("C16.hastings.mcmc[fail-then-ok,%s]" % rank, "V", "scn_mcmc", (2, (1, 1), rank, 2, [["G", 1], None]),
+            "acceptance decided on the full Hamiltonian difference (real MCMC.run)", 2, expect_paths_min=3)
+        add("C16.hastings.mcmc[10xfail,%s]" % rank, "V", "scn_mcmc", (2, (1, 1), rank, 1, [["U", 1]] * 10),
+            "ten failures: infinite Hastings term, rejected, state restored", 2)
+    for d in (1, 2, 3, 4):
+        for rank in ranks:
+            if rank == "dense" and d > 3:
+                continue   # symbolic 4×4 inverse is out of budget for nf (no polynomial gcd); d≥4 dense is covered with the inverse contract
             for via in ("kinetic_energy", "call_inverse", "call_mass"):
                 add("C16.hastings.kinetic[d=%d,%s,%s]" % (d, rank, via), "V", "scn_kinetic", (d, rank, via),
                     "kinetic energy = ½pᵀM⁻¹p", d)
     # ---- energy error, local order only (partial)
-    for d, steps, rank in [(1, 1, "diag"), (2, 1, "dense"), (2, 2, "diag")] + ([(2, 3, "dense"), (1, 3, "diag")] if thorough else []):
+    for d, steps, rank in [(1, 1, "diag"), (2, 1, "dense"), (2, 2, "diag")] + ([(2, 2, "dense"), (1, 3, "diag"), (3, 1, "dense")] if thorough else []):
         add("C16.energy.order[d=%d,steps=%d,%s]" % (d, steps, rank), "V", "scn_energy_order", (d, _split(d), steps, rank),
             "energy error: local order (partial; asymptotic clause not decided)", d)
     # ---- vacuity
